@@ -1,5 +1,15 @@
 mod util;
 mod p_c13;
+mod p_c19;
+mod p_c15;
+mod p_c03;
+mod p_c09;
+mod p_c02;
+mod p_c31;
+mod p_c22;
+mod p_c33;
+mod p_c11;
+mod p_c12;
 mod p_c26;
 mod p_c14;
 mod p_c32;
@@ -15,6 +25,8 @@ use util::Opts;
 
 /// Finite tables read out of the compiled code (DESIGN.md 2.1).
 fn reflect_all(out: &std::path::Path) {
+    p_c15::reflect(out);
+    p_c03::reflect(out);
     p_c26::reflect(out);
     p_c14::reflect(out);
     p_c10::reflect(out);
@@ -38,6 +50,16 @@ fn main() {
     util::silence_panics();
     match a[1].as_str() {
         "c13" => p_c13::run(&o),
+        "c19" => p_c19::run(&o),
+        "c15" => p_c15::run(&o),
+        "c22" | "c22op" | "c22obr" => p_c22::run(&o),
+        "c03" => p_c03::run(&o),
+        "c09" => p_c09::run(&o),
+        "c02" => p_c02::run(&o),
+        "c31" => p_c31::run(&o),
+        "c33" => p_c33::run(&o),
+        "c11" => p_c11::run(&o),
+        "c12" => p_c12::run(&o),
         "c26" => p_c26::run(&o),
         "c14" => p_c14::run(&o),
         "c32" => p_c32::run(&o),
